@@ -121,14 +121,21 @@ def run(ck: Check):
                "step_timeout": 20.0}
     probe = run_impl("impl_c19.py", dict(payload, runs=[]), timeout=300)
     if "mark_error" in probe:
+        # the schedules cannot be replayed; still look for a concrete failing call without the scheduler
+        names_ = ("parse-auto:PA", "find_type:Leaf", "parse:Holder", "parse-auto:Own", "ser:Own", "ser:PA", "parse:PA",
+                  "find_subclass:Base,Der2")
+        st = run_impl("impl_c19.py", dict(payload, runs=[], stress={"rounds": ck.n(60, 2000),
+                                                                   "threads": [by_tag[t] for t in names_] * 2}),
+                      timeout=900)["stress"]
         ck.failure("corr-marked-lines", "a source line the model's atomic actions are mapped to was not found: "
-                   + probe["mark_error"], {"marks": MARKS, "error": probe["mark_error"]})
+                   + probe["mark_error"], {"marks": MARKS, "error": probe["mark_error"],
+                                           "unforced_stress": st})
         return ck.finish(obligations=obligations, discharged=discharged, checker_cmd="coqc", trusted_base=TRUSTED_COMMON)
     n_index = len(probe["order"])
     runs, kinds = gen_runs(n_index)
     stress_threads = [by_tag[t] for t in ("parse-auto:PA", "find_type:Leaf", "parse:Holder", "parse-auto:Own", "ser:Own",
                                           "find_type:{urn:h}Base", "parse-auto:Tgt", "find_subclass:Base,Der2")] * 2
-    nproc = 4
+    nproc = ck.n(4, 12)
     chunks = [runs[i::nproc] for i in range(nproc)]
     import concurrent.futures as cf
     with cf.ThreadPoolExecutor(max_workers=nproc) as ex:
